@@ -42,6 +42,10 @@ fn main() {
         "c19" => props::c19::run(&cfg),
         "c20" => props::c20::run(&cfg),
         "c18" => props::c18::run(&cfg),
+        "c04" => props::sectors::run_c04(&cfg),
+        "c02" => props::sectors::run_c02(&cfg),
+        "c02power" => props::power_ds::run(&cfg),
+        "c02actor" => props::sectors_actor::run(&cfg),
         _ => { eprintln!("unknown property {}", prop); std::process::exit(2); }
     };
     if let Some(dir) = std::path::Path::new(&cfg.out).parent() {
